@@ -59,9 +59,13 @@ UnionConfigs == {[verb |-> "union", l |-> l, r |-> r, distinct |-> d] : l \in Ar
 
 KeySeqs == UNION {[1..m -> JKeys] : m \in 0..JMaxLen}
 (* named: FALSE = the tables have no name (the right columns then get the default suffix "_right") *)
-JoinConfigs == {[verb |-> "joinrows", l |-> l, r |-> r, how |-> h, on |-> o, named |-> nm] :
-                    l \in KeySeqs, r \in KeySeqs, h \in {"inner", "left", "full"}, o \in {"eq", "str", "le", "eqle"}, nm \in BOOLEAN}
+(* form: how the conjunction of "eqle" is written - `p & q`, the list [p, q], pdt.all(p, q), and the same predicate with the  *)
+(* redundant middle conjunct l.k <= r.k as `p & m & q` / pdt.all(p, m, q) (every conjunct must take part on every backend)    *)
+JoinConfigs == {[verb |-> "joinrows", l |-> l, r |-> r, how |-> h, on |-> o, named |-> nm, form |-> fm] :
+                    l \in KeySeqs, r \in KeySeqs, h \in {"inner", "left", "full"}, o \in {"eq", "str", "le", "eqle"}, nm \in BOOLEAN,
+                    fm \in {"and", "list", "all", "and3", "all3"}}
 JoinValid(c) == /\ (c.on \in {"le", "eqle"} => c.how # "full")
+                /\ (c.form # "and" => c.on = "eqle" /\ c.named)
                 /\ (~c.named => (c.on \in {"eqle", "le"} /\ Len(c.l) + Len(c.r) >= 3))      \* the unnamed variant only where it takes another path          \* a full join takes equality predicates only (documented ValueError otherwise)
 
 JoinExpected(c) ==      \* set of <<lid, rid>>, 0 = padded with nulls
@@ -159,8 +163,14 @@ JudgeMutate(c, names, rows, err) ==
 
 AggRows == {<<k, v>> : k \in {99, 1, 2}, v \in {99, -1, 2}}
 AggSeqs == UNION {[1..m -> AggRows] : m \in 0..AMaxLen}
-AggConfigs == {[verb |-> "agg", rows |-> rs, op |-> o, mode |-> md] :
-                  rs \in AggSeqs, o \in {"sum", "min", "max", "mean", "count", "len"}, md \in {"grouped", "ungrouped", "window", "constgroup"}}
+(* flt: the filter= argument - none, one condition (v > 0), a list of conditions ([v > -5, v < 2]); a row counts iff every *)
+(* condition is TRUE for it (a null condition is not true)                                                                *)
+AggConfigs == {[verb |-> "agg", rows |-> rs, op |-> o, mode |-> md, flt |-> fl] :
+                  rs \in AggSeqs, o \in {"sum", "min", "max", "mean", "count", "len"}, md \in {"grouped", "ungrouped", "window", "constgroup"},
+                  fl \in {"none", "vpos", "list"}}
+AggKeep(c, I) == CASE c.flt = "none" -> I
+                   [] c.flt = "vpos" -> {i \in I : c.rows[i][2] # 99 /\ c.rows[i][2] > 0}
+                   [] c.flt = "list" -> {i \in I : c.rows[i][2] # 99 /\ c.rows[i][2] > -5 /\ c.rows[i][2] < 2}
 
 RECURSIVE SumSeq(_)
 SumSeq(s) == IF s = <<>> THEN 0 ELSE Head(s) + SumSeq(Tail(s))
@@ -170,8 +180,9 @@ RECURSIVE MaxSeq(_)
 MaxSeq(s) == IF Len(s) = 1 THEN s[1] ELSE MaxI(Head(s), MaxSeq(Tail(s)))
 
 (* the aggregate of the rows I (a set of row numbers) of configuration c; a mean is the pair <<sum, count>> (compared as a fraction) *)
-AggOf(c, I) ==
-    LET idx == SelectSeq([i \in 1..Len(c.rows) |-> i], LAMBDA i : i \in I /\ c.rows[i][2] # 99)
+AggOf(c, I0) ==
+    LET I == AggKeep(c, I0)
+        idx == SelectSeq([i \in 1..Len(c.rows) |-> i], LAMBDA i : i \in I /\ c.rows[i][2] # 99)
         vs == [q \in DOMAIN idx |-> c.rows[idx[q]][2]]
     IN CASE c.op = "len" -> Cardinality(I)
          [] c.op = "count" -> Len(vs)
